@@ -356,4 +356,43 @@ def inv5Line (io : SetIO S) (debug : Bool) (root : String) (rv : Nat) (answers :
   let ans := if answers == "" then [] else answers.splitOn ";;"
   ";;".intercalate (inv5Replay io (ans.length + 5) s req ans [])
 
+/-- candidate termination measure: per decision level `i ≤ dl`, the "gain" of the partial solution
+restricted to level `i`: Σ over present packages of (T + 2 − size term), size = test versions contained
++ 1 if negative; tests = 0..7 -/
+def termSize (t : Term S) : Nat :=
+  ((List.range 8).filter fun v => Term.contains t v).length + (match t with | .neg _ => 1 | .pos _ => 0)
+
+def gainVec (ps : PartialSolution Pk S Nat Nat) : List Nat :=
+  (List.range (ps.currentDecisionLevel + 1)).map fun i =>
+    match restrictPS ps i with
+    | none => 0
+    | some r => (r.assignments.map fun (_, pa) => 10 - termSize pa.inter.term).sum
+
+def reqKind (_io : SetIO S) (r : Rq S) : String :=
+  match r with
+  | .shouldCancel => "C" | .prioritize _ _ => "P" | .pick _ => "K" | .chooseVersion _ _ => "V"
+  | .getDependencies _ _ => "D" | _ => "F"
+
+def inv6Replay (io : SetIO S) : (n : Nat) → St S → Rq S → List String → List String → List String
+  | 0, _, _, _, out => out
+  | n + 1, s, req, answers, out =>
+    match resultText io req with
+    | some _ => out
+    | none =>
+      match answers with
+      | [] => out
+      | a :: rest =>
+        match parseAnswer io a with
+        | none => out
+        | some ans =>
+          let (s', req') := Solver.step s ans
+          let out := out ++ [reqKind io req' ++ ":" ++ " ".intercalate ((gainVec s'.st.ps).map toString) ++ ":" ++ toString s'.st.ps.nextGlobalIndex]
+          inv6Replay io n s' req' rest out
+
+def inv6Line (io : SetIO S) (debug : Bool) (root : String) (rv : Nat) (answers : String) : String :=
+  let (s, req) := Solver.start (P := Pk) (S := S) (V := Nat) (M := String) (Pr := Nat) (E := String)
+    debug 1000000 root rv
+  let ans := if answers == "" then [] else answers.splitOn ";;"
+  ";;".intercalate (inv6Replay io (ans.length + 5) s req ans [])
+
 end Pubgrub.Diag
